@@ -293,3 +293,99 @@ Proof.
     split; [cbn [existsb k15_chunk]; unfold DEMO_MAX_SIZE; lia|].
     split; [reflexivity|]. split; [reflexivity|]. split; [cbn [step_shape]; rewrite Hb'; reflexivity|discriminate].
 Qed.
+
+(* ---------- a whole history ---------- *)
+Fixpoint hist_shape (sz : Snap.osize) (w : hwriter) (ops : list hop) (cs : list chunk) : Prop :=
+  match ops with
+  | [] => cs = []
+  | o :: r =>
+    exists c1 c2, cs = c1 ++ c2
+      /\ step_shape sz w o (snd (hstep sz w o)) c1
+      /\ (snd (hstep sz w o) = Err HTooLowTickNumber -> fst (fst (hstep sz w o)) = w)
+      /\ hist_shape sz (fst (fst (hstep sz w o))) r c2
+  end.
+
+Definition no_failure (rs : list (res hwerr unit)) : bool := forallb (fun r => negb (is_hl_failure r)) rs.
+
+Lemma forallb_app_true {A} (f : A -> bool) a b : forallb f a = true -> forallb f b = true -> forallb f (a ++ b) = true.
+Proof. intros Ha Hb. rewrite forallb_app, Ha, Hb. reflexivity. Qed.
+Lemma existsb_app_false {A} (f : A -> bool) a b : existsb f a = false -> existsb f b = false -> existsb f (a ++ b) = false.
+Proof. intros Ha Hb. rewrite existsb_app, Ha, Hb. reflexivity. Qed.
+
+Theorem hrun_chunks sz : forall ops w w' b rs,
+  bytes_ok (hw_buf w) = true -> forallb hop_ok ops = true ->
+  hrun sz w ops = (w', b, rs) -> no_failure rs = true ->
+  exists cs,
+    write_chunks (hw_prev w) cs = Ok b
+    /\ forallb chunk_ok cs = true /\ existsb k15_chunk cs = false
+    /\ hist_shape sz w ops cs.
+Proof.
+  induction ops as [|o ops IH]; intros w w' b rs Hbuf Hops H Hrs.
+  - cbn [hrun] in H. injection H as <- <- <-. exists []. repeat split; reflexivity.
+  - cbn [forallb] in Hops. apply andb_true_iff in Hops as [Ho Hops].
+    cbn [hrun] in H. destruct (hstep sz w o) as [[w1 b1] r1] eqn:Es.
+    assert (Hr1 : is_hl_failure r1 = false).
+    { destruct r1 as [[]|e|s|]; try reflexivity; injection H as <- <- <-; cbn in Hrs; discriminate. }
+    destruct (hstep_chunks sz w o w1 b1 r1 Hbuf Ho Es Hr1) as [cs1 (Hw1 & Hok1 & Hk1 & Hp1 & Hb1 & Hsh1 & Hsame)].
+    destruct (hrun sz w1 ops) as [[w2 b2] rs2] eqn:Er.
+    assert (H' : (w2, b1 ++ b2, r1 :: rs2) = (w', b, rs)) by (destruct r1 as [[]|e|s|]; try exact H; discriminate Hr1).
+    injection H' as <- <- <-.
+    cbn [no_failure forallb] in Hrs. apply andb_true_iff in Hrs as [_ Hrs2].
+    destruct (IH w1 w2 b2 rs2 Hb1 Hops Er Hrs2) as [cs2 (Hw2 & Hok2 & Hk2 & Hsh2)].
+    exists (cs1 ++ cs2). split.
+    { rewrite (write_chunks_app cs1 cs2 (hw_prev w) b1 (hw_prev w1) Hw1 (fun _ _ => I) Hp1). rewrite Hw2. reflexivity. }
+    split; [apply forallb_app_true; assumption|]. split; [apply existsb_app_false; assumption|].
+    cbn [hist_shape]. exists cs1, cs2. rewrite Es. cbn [fst snd]. repeat split; assumption.
+Qed.
+
+(* ---------- the reader is given what the writer encoded ---------- *)
+Fixpoint hdecode (sz : Snap.osize) (last : Snap.snap) (cs : list chunk) : list (hchunk * list hwarn) * hwres unit :=
+  match cs with
+  | [] => ([], (Ok tt, []))
+  | c :: r =>
+    match decode_chunk sz last c with
+    | (Ok (hc, sn), ws) => let (l, e) := hdecode sz sn r in ((hc, ws) :: l, e)
+    | (Err e, ws) => ([], (Err e, ws))
+    | (Panic s, ws) => ([], (Panic s, ws))
+    | (OutOfFuel, ws) => ([], (OutOfFuel, ws))
+    end
+  end.
+
+Lemma next_chunks_decode sz v : forall fuel cs st last,
+  read_chunks fuel v st = (map (fun c => (c, [])) cs, (Ok tt, [])) ->
+  next_chunks fuel sz v {| hr_raw := st; hr_snap := last |} = hdecode sz last cs.
+Proof.
+  induction fuel as [|f fuel IH]; intros cs st last H; cbn [read_chunks] in H; [discriminate|].
+  cbn [next_chunks]. unfold next_chunk. cbn [hr_raw hr_snap].
+  destruct (read_chunk v st) as [[[[c st']|]|e|s|] ws] eqn:Er; try discriminate.
+  - destruct (read_chunks fuel v st') as [cs' e'] eqn:Ers.
+    destruct cs as [|c0 cs0]; cbn [map] in H; [discriminate|].
+    injection H as -> -> -> ->. cbn [hdecode map app].
+    destruct (decode_chunk sz last c0) as [[[hc sn]|e|s|] ws']; try reflexivity.
+    rewrite (IH cs0 st' sn Ers). reflexivity.
+  - injection H as H1 ->. destruct cs; [|discriminate]. reflexivity.
+Qed.
+
+Theorem hl_transport sz i ops w b rs hb :
+  winput_ok i = true -> forallb hop_ok ops = true -> writer_new i = Ok hb ->
+  hrun sz hwriter_new ops = (w, b, rs) -> no_failure rs = true ->
+  exists h cs,
+    hread_all sz (hb ++ b) = Ok (h, [], hdecode sz Snap.snap_empty (map pad4_chunk cs))
+    /\ header_view h = expected_view i
+    /\ hist_shape sz hwriter_new ops cs.
+Proof.
+  intros Hi Hops Hh Hrun Hrs.
+  destruct (hrun_chunks sz ops hwriter_new w b rs eq_refl Hops Hrun Hrs) as [cs (Hw & Hok & Hk & Hsh)].
+  cbn [hwriter_new hw_prev] in Hw.
+  assert (Hall : write_all i cs = Ok (hb ++ b)) by (unfold write_all; rewrite Hh, Hw; reflexivity).
+  destruct (raw_roundtrip i cs (hb ++ b) Hi Hok Hk Hall) as [h [Hr Hview]].
+  exists h, cs. split; [|split; assumption].
+  unfold read_all in Hr. unfold hread_all.
+  destruct (reader_new (hb ++ b)) as [[[h' rest] ws]| | |]; try discriminate.
+  apply Ok_inj in Hr.
+  pose proof (f_equal snd Hr) as Hrc. pose proof (f_equal (fun x => fst (fst x)) Hr) as Hh'.
+  pose proof (f_equal (fun x => snd (fst x)) Hr) as Hws. cbn [fst snd] in Hrc, Hh', Hws. subst h' ws.
+  rewrite (next_chunks_decode sz (rh_version h) (0 :: rest) (map pad4_chunk cs) _ Snap.snap_empty).
+  - reflexivity.
+  - rewrite Hrc. rewrite map_map. reflexivity.
+Qed.
